@@ -259,8 +259,13 @@ class _AmplitudeMatern(Operator):
         vol1 = makeField(pow_spc, vol1)
         op = vol0 + vol1*op
 
-        # std = sqrt of integral of power spectrum
-        self._fluc = op.power(2).integrate().sqrt()
+        # std = sqrt of integral of power spectrum (without the zero-mode and
+        # in units of the harmonic volume element, as for the non-parametric
+        # amplitude)
+        nozm = np.ones(pow_spc.shape)
+        nozm[0] = 0.
+        hvol = pow_spc.harmonic_partner.scalar_dvol
+        self._fluc = (makeOp(makeField(pow_spc, nozm*hvol)) @ op.power(2)).integrate().sqrt()
         self.apply = op.apply
         self._domain, self._target = op.domain, op.target
         self._repr_str = "_AmplitudeMatern: " + op.__repr__()
